@@ -1,18 +1,67 @@
 /-
   C02 — heap page scan returns exactly the stored tuples, in order.
-  Property theorems only; helper lemmas are in Proofs/.
+  Property theorems only; helper lemmas are in Proofs/Heap*.lean.
+
+  Spec side (Spec/Heap.lean): a heap file is a list of blocks — formatted pages (header fields, line
+  pointers in any state, free space, tuples placed anywhere between pd_upper and the end of the page in
+  any order with arbitrary junk between them, tail/special space) or all-zero blocks — followed by a
+  trailing partial block.  `Spec.scanView` is the expected scan: page order, then line-pointer order,
+  NORMAL pointers only, each entry with natts, t_hoff, infomask, the four flag bits, the null bitmap,
+  the data bytes and the byte offset of its page.
 -/
-import PgVerif.Proofs.Heap
+import PgVerif.Proofs.HeapFile
 namespace PgVerif.Props.C02
 open PgVerif PgVerif.Model PgVerif.Proofs
 
 /-- Line pointer codec: for every offset/length below 2^15 and every state, the decoder recovers the
 three fields from PostgreSQL's bit layout (lp_off:15, lp_flags:2, lp_len:15). -/
 theorem C02_pointer (off flags len : Nat) (ho : off < 2 ^ 15) (hf : flags < 4) (hl : len < 2 ^ 15) :
-    decItem (off + 2 ^ 15 * flags + 2 ^ 17 * len) = ⟨off, len, flags⟩ := by
-  have h1 : ∀ x, x &&& 0x7FFF = x % 2 ^ 15 := fun x => land_mask x 15
-  have h3 : ∀ x, x &&& 0x03 = x % 2 ^ 2 := fun x => land_mask x 2
-  simp only [decItem, Nat.shiftRight_eq_div_pow, h1, h3]
-  congr 1 <;> omega
+    decItem (off + 2 ^ 15 * flags + 2 ^ 17 * len) = ⟨off, len, flags⟩ :=
+  decItem_raw off flags len ho hf hl
+
+/-- Tuple header: for every well-formed stored tuple (any natts 0..2047, any infomask, with or without
+null bitmap, any t_hoff that leaves room for the bitmap, any data) the tuple parser returns its
+attribute count, header length, infomask-derived flags, exactly the bitmap bytes and exactly the data bytes. -/
+theorem C02_tuple (t : Spec.Tuple) (h : t.WF) (off : Nat) :
+    (parseHeapTuple (Spec.encTuple t)).map (fun r => r.map fun m => viewOf ⟨m, off⟩) = .ok (some (Spec.tupleView off t)) := by
+  rw [parseHeapTuple_enc t h]; rfl
+
+/-- One page: for every well-formed page — any number of line pointers in any mix of states (unused,
+redirect, dead with arbitrary offset/length garbage), tuples anywhere between pd_upper and the page end in any
+order, any layout version 1..10 — ParsePage yields one entry per NORMAL pointer, none for the others, in
+line-pointer order, each byte-identical to the stored tuple. -/
+theorem C02_page (p : Spec.Page) (h : p.WF) :
+    (parsePage (Spec.encPage p)).map (fun ts => ts.map fun m => viewOf ⟨m, 0⟩) = .ok (p.normalTuples.map (Spec.tupleView 0)) := by
+  rw [parsePage_enc p h]
+  simp [Except.map, viewOf_mtuple, Function.comp_def]
+
+/-- Whole file: for every list of well-formed blocks (pages and never-initialised all-zero blocks) followed
+by any trailing partial block, the scan returns exactly `Spec.scanView` — page order then line-pointer order,
+each entry tagged with the byte offset of its page, nothing for zero blocks or the partial tail — and with
+the visibility switch on, exactly the sub-list whose hint bits say "inserter committed, no deleter committed". -/
+theorem C02_scan (bs : List Spec.Block) (tail : Bytes) (vis : Bool) (hb : ∀ b ∈ bs, b.WF) (ht : tail.length < 8192) :
+    (readTuples (Spec.encHeap bs tail) vis).map (fun es => es.map viewOf)
+      = .ok ((Spec.scanView bs).filter fun v => !vis || Spec.liveBits v.infomask) :=
+  scan_enc bs tail vis hb ht
+
+/-- Concatenation, for ARBITRARY bytes (no well-formedness): if `a` is a whole number of pages, scanning
+`a ++ b` equals the scan of `a` followed by the scan of `b` with the second file's page offsets shifted by `|a|`.
+(This is also the page-isolation half of C10 for heap files: what is reported for the pages of `a` does not depend on `b` and vice versa.) -/
+theorem C02_concat (a b : Bytes) (vis : Bool) (h : a.length % 8192 = 0) :
+    readTuples (a ++ b) vis =
+      (do let ra ← readTuples a vis
+          let rb ← readTuples b vis
+          pure (ra ++ rb.map (shiftE a.length))) :=
+  readTuples_append a b vis (a.length / 8192) (by omega)
+
+/-- non-vacuity: a concrete page with a NORMAL, a DEAD and a second NORMAL pointer satisfies `Page.WF`,
+and its expected scan has two entries -/
+example :
+    let t : Spec.Tuple := { xmin := 2, xmax := 0, cid := 0, ctid := zeros 6, infomask2 := 1, infomask := 0x0900, mid := [0], data := [7, 7] }
+    let p : Spec.Page := { hdr0 := zeros 12, special := 8192, version := 4, prune := 0,
+                           lps := [.normal 1, .other 0 3 0, .normal 0], free := zeros 100,
+                           slots := [([], t), ([9], t)], tail := zeros (8192 - 36 - 100 - 26 - 27) }
+    p.WF ∧ (Spec.scanView [.page p]).length = 2 := by
+  decide +kernel
 
 end PgVerif.Props.C02
